@@ -68,8 +68,11 @@ def handle : List String → String
     match parseList? parseRat? ts, parseList? parseInt? eps, parseOpt? parseNat? k, parseNat? first, parseOpt? parseInt? last with
     | some ts, some eps, some k, some first, some last =>
       let r : Except String (Built String Rat) := do
-        let flags ← exitPlaneAfter eps ts.length
-        let slicesOf := fun c => genAtoms (T := Rat) ts flags (fun i => s!"{c}:{i}") first last
+        -- `_exit_plane_after` is evaluated inside `generate_slices` of every block (its IndexError comes after the
+        -- shape checks of `build`)
+        let slicesOf := fun c => do
+          let flags ← exitPlaneAfter eps ts.length
+          genAtoms (T := Rat) ts flags (fun i => s!"{c}:{i}") first last
         match op, mode with
         | "build", "eager" => buildEager ts eps (blocksOf k) slicesOf first last
         | "build", "lazy" => buildLazy ts eps (blocksOf k) slicesOf first last
@@ -84,8 +87,9 @@ def handle : List String → String
     | some uts, some reps, some eps, some k, some draws, some first, some last =>
       let ts := crystalThickness uts reps
       let r : Except String (Built String Rat) := do
-        let flags ← exitPlaneAfter eps ts.length
-        let slicesOf := fun (c : Nat) => (pure (genCrystal (T := Rat) uts flags reps (fun r => (draws.getD c []).getD r 0)
+        let slicesOf := fun (c : Nat) => do
+          let flags ← exitPlaneAfter eps ts.length
+          (pure (genCrystal (T := Rat) uts flags reps (fun r => (draws.getD c []).getD r 0)
             (fun c j => s!"{c}.{j}") id first last) : Except String _)
         match op, mode with
         | "build", "eager" => buildEager ts eps (blocksOf k) slicesOf first last
